@@ -1,6 +1,7 @@
 """C06 — C++ functions are only ever entered with correctly typed arguments.
-proof: Properties_C06 over DispatchDefs (ports of boxed_cast / dispatch / registration) and the rules regenerated
-       from boxed_cast_helper.hpp, boxed_cast.hpp, proxy_functions*.hpp, dispatchkit.hpp (t_CastRules.py)
+proof: Properties_C06 over DispatchDefs (ports of boxed_cast / dispatch / registration / re-seating histories) and the rules regenerated
+       from boxed_cast_helper.hpp, boxed_cast.hpp, boxed_value.hpp, proxy_functions*.hpp, dispatchkit.hpp (t_CastRules.py): besides the cast table,
+       what each handler of boxed_cast catches, the first Type_Info slot function_less_than compares, which cached pointers ~Sentinel refreshes
 tie:   translator (every run) + correspondence  h_dispatch (implementation) <-> m_dispatch (extracted mechanism model)
 oracle: implementation observation vs the extracted specification (m_dispatchspec: recv_ok / exact_overload), independent of gen/."""
 import itertools, json, os, random, re, sys
@@ -14,6 +15,8 @@ FN_ARITY = [1, 1, 2, 0, 1]
 CAST_TYPES = {T_INT: 1, T_UINT: 1, T_LONG: 1, T_DOUBLE: 1, T_BOOL: 0, T_CHAR: 1, T_STRING: 0, T_BASE: 0, T_DERIVED: 0, T_OTHER: 0, T_SBASE: 0, T_VECINT: 0}
 CAST_FORMS = ["FVal", "FCVal", "FCRef", "FRef", "FPtr", "FCPtr", "FSh", "FShC", "FShCRef", "FRw", "FRwC"]
 FULLBARE = {"FVal", "FCVal", "FCRef", "FRef", "FRRef", "FBV", "FBVRef", "FCBV", "FBVCRef", "FBN", "FFn"}
+# registered conversions of the catalogue environment: target type -> source types (base classes, user conversions)
+CONV_FROM = {T_BASE: [T_DERIVED], T_SBASE: [T_SDERIVED], T_STRING: [T_OTHER], T_VECINT: [T_VECBV], T_DERIVED: [T_BASE]}
 CONST_FORMS = {"FCPtr", "FCRef", "FShC", "FRwC", "FCShC", "FShCCRef", "FCRwC", "FRwCCRef", "FCPtrCRef"}
 
 
@@ -22,20 +25,22 @@ class Catalog:
         rc, out, err = vlib.run([hbin, "catalog"], timeout=120)
         if rc != 0:
             raise vlib.BuildError("h_dispatch catalog failed: " + err.decode()[-500:])
-        self.funcs, self.convs, self.arity = {}, [], {}
+        self.funcs, self.convs, self.arity, self.ret = {}, [], {}, {}
         self.rtl = None
         for l in out.decode().split("\n"):
             f = l.split()
             if not f:
                 continue
             if f[0] == "FUNC":
-                fid, kind, arity, throws, guard, np = int(f[1]), f[2], int(f[3]), int(f[4]), int(f[5]), int(f[6])
+                fid, kind, arity, throws, guard, np = int(f[1]), f[2], int(f[3]), int(f[4]), int(f[5]), int(f[7])
+                ret = [int(x) for x in f[6].split(":")]      # slot 0 of get_param_types(): bare, const, undef, before-rank
                 ps = []
-                for p in f[7:7 + np]:
+                for p in f[8:8 + np]:
                     bare, c, ar, un, fb, rk, form, fnar, named = p.split(":")
                     ps.append([int(bare), int(c), int(ar), int(un), int(fb), int(rk), FORMS.index(form), int(fnar), int(named)])
                 k = {"native": 0, "dyn": 1, "dynv": 1, "attr": 2}[kind]
-                self.funcs[fid] = [fid, arity, k, throws, guard, np] + [x for p in ps for x in p]
+                self.funcs[fid] = [fid, arity, k, throws, guard] + ret + [np] + [x for p in ps for x in p]
+                self.ret[fid] = ret
                 self.arity[fid] = arity
                 self.funcs[fid] = (self.funcs[fid], kind, ps)
             elif f[0] == "CONV":
@@ -195,31 +200,93 @@ def gen_cases(cat, tier, seed):
         a = rnd.choice(relevant_args(cat, ids, 0, pool, rnd, 3))
         cases.append("D 0 fncall %s | %s" % (",".join(map(str, ids)), a))
     # 7. overload twins: same parameter type, different constness / form (and, for some, different return types), both registration orders
+    #    (the loop visits (f, g) and (g, f)); sources: the parameter type itself and every type with a registered conversion to it
+    #    (Derived for Base, SDerived for SBase, Other for std::string, vector<Boxed_Value> for vector<int>, Base-typed handles of a Derived)
     natives = [f for f in a1 if cat.funcs[f][1] == "native" and len(cat.funcs[f][2]) == 1]
+    KINDS = ("var", "cvar", "ref", "cref", "sp", "csp", "ptr", "cptr")
+
+    def sources(t):
+        """argument specs whose value is of type t or converts to it: (always, sometimes)"""
+        own = ["%s.%d.3" % (k, t) for k in KINDS] if t not in (T_VECINT, 30) else ["var.%d.0" % t, "cref.%d.0" % t] if t == T_VECINT else []
+        conv = []
+        for src in CONV_FROM.get(t, []):
+            if src == T_VECBV:
+                conv += ["vec.22.0", "cvec.22.0"]
+            else:
+                conv += ["%s.%d.3" % (k, src) for k in KINDS]
+        if t == T_DERIVED:
+            conv += ["upref.18.6", "upcref.18.6", "upsp.18.6"]
+        return own, conv
+
     for f in natives:
         for g in natives:
             pf, pg = cat.funcs[f][2][0], cat.funcs[g][2][0]
             if f == g or pf[0] != pg[0] or pf[0] in (0, 1):
                 continue
+            retdiff = cat.ret[f] != cat.ret[g]
             if not (tier == "thorough" or pf[1] != pg[1] or rnd.random() < 0.15):
                 continue
-            t = pf[0]
-            for k in ("var", "cvar", "ref", "cref", "sp", "csp", "ptr", "cptr"):
-                if t in (T_VECINT, 30) and k not in ("var", "cref"):
+            own, conv = sources(pf[0])
+            for a in own:
+                k = a.split(".")[0]
+                if tier == "thorough" or k in ("var", "cvar", "sp") or rnd.random() < (0.5 if retdiff else 0.3):
+                    cases.append("D 0 %s %d,%d | %s" % ("script" if rnd.random() < 0.2 else "direct", f, g, a))
+            for a in conv:
+                if tier == "thorough" or rnd.random() < (0.5 if pf[1] != pg[1] else 0.2):
+                    cases.append("D %d %s %d,%d | %s" % (rnd.choice([0, 0, 1]), "script" if rnd.random() < 0.2 else "direct", f, g, a))
+    # 7b. twins among the two-parameter overloads: same parameter types, constness differing in either position, both registration orders
+    nat2 = [f for f in a2 if cat.funcs[f][1] == "native"]
+    for f in nat2:
+        for g in nat2:
+            pf, pg = cat.funcs[f][2], cat.funcs[g][2]
+            if f == g or [p[0] for p in pf] != [p[0] for p in pg] or [p[1] for p in pf] == [p[1] for p in pg] or any(p[0] in (0, 1) for p in pf):
+                continue
+            alts = []
+            for p in pf:
+                own, conv = sources(p[0])
+                alts.append(own[:2] + [x for x in own if x.startswith("sp.")] + rnd.sample(own + conv, min(3 if tier == "quick" else 6, len(own + conv))))
+            for a0 in alts[0]:
+                for a1_ in alts[1]:
+                    if tier == "thorough" or rnd.random() < 0.5:
+                        cases.append("D 0 %s %d,%d | %s %s" % ("script" if rnd.random() < 0.2 else "direct", f, g, a0, a1_))
+    # 9. values that reach the parameter through a registered conversion, for every parameter form of the target type: alone (family 1),
+    #    and here next to a catch-all, to the other overloads of the same type, and to an unrelated overload, in both registration orders:
+    #    a conversion whose result does not fit the form is "no match" - the next overload is tried, or a dispatch error is raised
+    catchalls = [f for f in natives if cat.funcs[f][2][0][0] in (0, 1)]
+    for f in natives:
+        t = cat.funcs[f][2][0][0]
+        own, conv = sources(t)
+        if not conv:
+            continue
+        same = [g for g in natives if g != f and cat.funcs[g][2][0][0] == t]
+        for a in conv:
+            partners = [rnd.choice(catchalls)] + ([rnd.choice(same)] if same else []) + [rnd.choice(natives)]
+            for g in partners:
+                if g == f or not (tier == "thorough" or rnd.random() < 0.5):
                     continue
-                if tier == "thorough" or k in ("var", "cvar", "sp") or rnd.random() < 0.3:
-                    cases.append("D 0 %s %d,%d | %s.%d.3" % ("script" if rnd.random() < 0.2 else "direct", f, g, k, t))
-    # 8. two-step histories: a C++ function taking std::shared_ptr<T>& re-seats the variable, then the variable is passed on / cast out:
-    #    every form must receive the object the variable holds now
-    for t in (T_INT, T_STRING, T_BASE, T_DERIVED, T_OTHER):
-        for f in a1:
-            if cat.funcs[f][1] in ("native", "dyn", "dynv"):
-                cases.append("D 0 reseat %d | sp.%d.3" % (f, t))
+                ids = (f, g) if rnd.random() < 0.5 else (g, f)
+                cases.append("D %d %s %d,%d | %s" % (rnd.choice([0, 0, 1]), "script" if rnd.random() < 0.15 else "direct", ids[0], ids[1], a))
+    # 8. histories: a C++ function taking std::shared_ptr<T>& re-seats the variable (1..3 times), then the variable is passed on
+    #    (direct call, script call, to one or two overloads) or cast out: every form must receive the object the variable holds now
+    hfuncs = [f for f in a1 if cat.funcs[f][1] in ("native", "dyn", "dynv")]
+    for t in (T_INT, T_STRING, T_BASE, T_DERIVED, T_OTHER, T_DOUBLE):
+        rel = [f for f in hfuncs if not cat.funcs[f][2] or cat.funcs[f][2][0][0] in (t, 0, 1) or (cat.funcs[f][2][0][2] and t in ARITH)
+               or t in CONV_FROM.get(cat.funcs[f][2][0][0], []) or cat.funcs[f][2][0][0] in CONV_FROM.get(t, [])]
+        for f in hfuncs:
+            if f in rel or tier == "thorough" or rnd.random() < 0.25:
+                n = rnd.choice(["", "", "2", "3"])
+                cases.append("D 0 %sreseat%s %d | %s.%d.3" % ("s" if rnd.random() < 0.2 else "", n, f, rnd.choice(["sp", "sp", "var"]), t))
         for fm in CAST_FORMS:
-            cases.append("C 0 rconv %s.%d | sp.%d.3" % (fm, t, t))
-        for _ in range(20 * scale):
-            ids = rnd.sample(a1, 2)
-            cases.append("D 0 reseat %s | sp.%d.3" % (",".join(map(str, ids)), t))
+            for n in ("", "2", "3"):
+                for k in ("sp", "var", "ret"):
+                    if tier == "thorough" or (n == "" and k == "sp") or rnd.random() < 0.4:
+                        cases.append("C 0 rconv%s %s.%d | %s.%d.3" % (n, fm, t, k, t))
+            for tt in CONV_FROM.get(t, []) + [x for x in CONV_FROM if t in CONV_FROM[x]]:
+                if tt in (T_INT, T_STRING, T_BASE, T_DERIVED, T_OTHER, T_DOUBLE):
+                    cases.append("C 0 rconv%s %s.%d | sp.%d.3" % (rnd.choice(["", "2"]), fm, t, tt))
+        for _ in range(30 * scale):
+            ids = rnd.sample(rel, 2) if len(rel) >= 2 and rnd.random() < 0.8 else rnd.sample(a1, 2)
+            cases.append("D 0 %sreseat%s %s | %s.%d.3" % ("s" if rnd.random() < 0.2 else "", rnd.choice(["", "2"]), ",".join(map(str, ids)), rnd.choice(["sp", "var"]), t))
     cases.append("D 0 reseat 18,17 | upsp.18.6")
     # 6. the C++-receives direction: boxed_cast<T>, eval<T>, std::function wrappers
     for t in CAST_TYPES:
@@ -248,6 +315,14 @@ def gen_cases(cat, tier, seed):
 
 
 # ---------------------------------------------------------------------------------------------------
+HIST_RE = re.compile(r" \| HIST((?: \S+)+?)(?= \||$)")
+
+
+def base_route(r):
+    """reseat2 -> reseat (the number of re-seats is part of the case, not of the family)"""
+    return r.rstrip("0123456789")
+
+
 def model_line(cat, case, impl):
     """numeric case line for the extracted models, built from the harness' own description of the arguments"""
     head, _, argpart = case.partition("|")
@@ -260,6 +335,17 @@ def model_line(cat, case, impl):
     if len(descr) != len(argspecs):
         return None
     convset = int(h[1])
+    hm = HIST_RE.search(impl)
+    if h[0] == "C" and base_route(h[2]) == "rconv":
+        # history case: the variable as it was, then the contents installed by each re-seat; the models replay the history
+        if not hm:
+            return None
+        hd = hm.group(1).split()
+        form, ty = h[3].split(".")
+        toks = [cat.rtl, 1] + cat.conv_tokens(convset) + param_tokens(form, int(ty)) + arg_tokens(hd[0], argspecs[0]) + [len(hd) - 1]
+        for pay in hd[1:]:
+            toks += pay_tokens(pay, argspecs[0])
+        return "H " + " ".join(map(str, toks))
     toks = [cat.rtl, 0 if (h[0] == "C" and h[2] == "noconv") else 1] + cat.conv_tokens(convset)
     if h[0] == "D":
         ids = [int(x) for x in h[3].split(",")]
@@ -295,6 +381,7 @@ ERRMAP = {"dispatch_error", "bad_boxed_cast", "arity_error", "guard_error"}
 
 
 def strip_args(impl):
+    impl = HIST_RE.sub("", impl)
     i = impl.find(" | ")
     return impl[i + 3:] if impl.startswith("ARGS") and i >= 0 else impl
 
@@ -308,11 +395,12 @@ def canon(obs, wild):
 def compare(case, impl, model):
     """implementation observation vs mechanism model observation"""
     h = case.split()
+    h[2] = base_route(h[2])
     wild = "text" in impl.split(" | ")[0]
     i, m = canon(strip_args(impl), wild), canon(model, wild)
     if "ERR(UB)" in m or "STUCK" in m:
         return "STUCK" not in m  # undefined behaviour reached in the model: nothing to compare
-    if h[0] == "D" and h[2] == "script":
+    if h[0] == "D" and h[2] in ("script", "sreseat"):
         # Fun_Call_AST_Node reports the dispatch-level classes as eval_error
         m = re.sub(r"ERR\((%s)\)" % "|".join(ERRMAP), "ERR(eval_error)", m)
     if h[0] == "C":
@@ -425,7 +513,7 @@ def run(c, cat, cases, hbin, mbin, sbin, env=None):
         case, i = cases[k], impl[k]
         h = case.split()
         c.cov["evaluations"] += 1
-        key = "%s:%s" % (h[0], h[2])
+        key = "%s:%s" % (h[0], base_route(h[2]))
         c.dist[key] = c.dist.get(key, 0) + 1
         obs = strip_args(i)
         cls = "enter" if "ENTER" in obs else "cast" if obs.startswith("CAST") else "error"
@@ -494,10 +582,13 @@ def check(tier, seed):
     c = vlib.Check("C06", tier, seed)
     c.cov["rule"] = ("cases = (conversion set, route, overload subset in registration order, argument tuple) for dispatch and (mode, requested C++ form and type, script value) "
                      "for boxed_cast/eval<T>/std::function wrappers; every arity-1 catalogue signature meets every pool value; pairs/triples/other arities are seeded samples "
-                     "aimed at the parameter types; non-trivial = a function was entered, a cast succeeded, or the specification allows some entry; distinct = distinct case lines")
+                     "aimed at the parameter types; overload twins (same parameter types, different constness, different return types; one and two parameters) in both "
+                     "registration orders with own-type and convertible-type sources of every kind; conversion sources next to catch-alls; histories of 1..3 re-seats through "
+                     "std::shared_ptr<T>& followed by a call (direct / from script) or a cast-out in every form; non-trivial = a function was entered, a cast succeeded, or the specification allows some entry; distinct = distinct case lines")
     c.assumptions = ["the catalogue environment (arithmetic kinds, user conversion functions, guards) in DispatchSpecRun.v mirrors harness/h_dispatch.cpp; checked by the correspondence",
                      "translator tools/translate/t_CastRules.py (shape recogniser over boxed_cast_helper.hpp, boxed_cast.hpp, boxed_value.hpp, any.hpp, proxy_functions*.hpp, dispatchkit.hpp, "
-                     "boxed_number.hpp, function_call.hpp); function_less_than, filter, Object_Data::get, the ambiguity rule are pinned by exact text",
+                     "boxed_number.hpp, function_call.hpp); function_less_than (up to the loop's start index, which is a rule), filter, Object_Data::get, the ambiguity rule are "
+                     "pinned by exact text; ~Sentinel is read as the set of cached pointers it assigns",
                      "callee bodies never throw bad_boxed_cast / arity_error / guard_error themselves (hypothesis of C06_single_entry, stated in the theorem)",
                      "std::stable_sort as implemented by libstdc++ (GCC 12) for at most 14 overloads; std::type_info::before ranks are an input printed by the harness",
                      "extraction: ExtrOcamlBasic + ExtrOcamlString, no Extract Constant; OCaml driver does line I/O only"]
